@@ -185,7 +185,17 @@ pub fn leftrec_grammar(src: &mut Src) -> (Grammar, SpecFlags) {
         0 | 3 => {
             // direct struct style; shape 3: recursive alternatives not first
             let mut arms: Vec<Expr> = ops.iter().map(|o| Expr::Seq(vec![bref("l", "E", true), Expr::lit(o), bref("r", "Atom", false)])).collect();
-            let base = bref("a", "Atom", false);
+            // the seed alternative: usually an atom; sometimes it can match the empty string (growth from a zero-width seed)
+            let seed_kind = src.weighted(&[10, 2, 2]);
+            let base = match seed_kind {
+                0 => bref("a", "Atom", false),
+                1 => Expr::Seq(vec![]),
+                _ => Expr::Opt(Box::new(bref("a", "Atom", false))),
+            };
+            if seed_kind != 0 && shape == 0 {
+                // one-token growth steps as well, so that growth can run up to the end of the input
+                arms.push(Expr::Seq(vec![bref("l", "E", true), Expr::lit(ops[0])]));
+            }
             if shape == 3 {
                 let k = src.pick(arms.len());
                 arms.insert(k, base);
@@ -194,7 +204,7 @@ pub fn leftrec_grammar(src: &mut Src) -> (Grammar, SpecFlags) {
                 arms.push(base);
             }
             let d = rec_dirs(src, true);
-            let plain = !d.contains(&Directive::Position) && shape == 0;
+            let plain = !d.contains(&Directive::Position) && shape == 0 && seed_kind == 0;
             rules.push(RuleDef::Normal(NormalRule { name: "E".into(), directives: d, body: Expr::Choice(arms) }));
             let atom = RuleDef::Normal(NormalRule {
                 name: "Atom".into(),
@@ -429,9 +439,14 @@ pub fn make(plan: &str, seed: u64, count: usize, tier: &str, wave: u64) -> (Vec<
     let _ = tier;
     match plan {
         "leftrec" => specs = leftrec_specs(seed, count, wave, "g", &mut stats),
-        "mixed" | "sched" => {
-            let prof = Profile::by_name(if plan == "sched" { "memo" } else { "mixed" }).unwrap();
-            let nl = count / 5;
+        "mixed" | "sched" | "errors" => {
+            let prof = Profile::by_name(match plan {
+                "sched" => "memo",
+                "errors" => "core",
+                _ => "mixed",
+            })
+            .unwrap();
+            let nl = if plan == "errors" { count / 4 } else { count / 5 };
             for (k, (g, _)) in profile_grammars(&prof, seed, count - nl, wave, &mut stats).into_iter().enumerate() {
                 specs.push(spec(format!("g{:04}", k), plan, g));
             }
